@@ -9,7 +9,7 @@
 //!
 //! observation: `<notes joined by "; ">|- | <a:Status/sup/nkids …> | run=<runnable actors>`
 //!
-//! Case streams: corpus files, the exhaustive arrival-point sweep (phase × port-fill pattern ×
+//! Case streams: replayed op files (`--replay-ops f1,f2`; `--only-replay 1` stops after them), the exhaustive arrival-point sweep (phase × port-fill pattern ×
 //! next op), structured random cases.
 
 use hcore::lts::{run_paused, Fx, Seg, Term, World};
@@ -449,8 +449,10 @@ fn main() {
     let seed = args.u64("seed", 1);
     let cases = args.u64("cases", 300);
     let out = args.str("out", ".work/life");
-    let corpus = args.str("corpus", "");
-    let do_sweep = args.u64("sweep", 1) != 0;
+    let corpus = args.str("replay-ops", "");
+    let only_replay = args.u64("only-replay", 0) != 0;
+    let do_sweep = args.u64("sweep", 1) != 0 && !only_replay;
+    let cases = if only_replay { 0 } else { cases };
     run_paused(async move {
         let mut rng = Rng::new(seed);
         let mut run = Run {
